@@ -34,7 +34,8 @@ def main():
     lane = os.environ.get("SEED_LANE")
     wt = "/tmp/seedlane-%s" % lane if lane else "/tmp/seedrun-%s" % os.path.basename(sd)
     if lane and os.path.isdir(wt):
-        subprocess.run(["git", "-C", wt, "checkout", "--", "."], check=True, capture_output=True)
+        # (reset, not checkout: `git apply --3way` also stages the change, and `checkout -- .` restores from the index)
+        subprocess.run(["git", "-C", wt, "reset", "-q", "--hard"], check=True, capture_output=True)
         subprocess.run(["git", "-C", wt, "clean", "-fdq", "-e", "target"], check=True, capture_output=True)
         subprocess.run(["git", "-C", wt, "checkout", "--detach", subprocess.run(["git", "-C", "/repo", "rev-parse", "HEAD"], capture_output=True, text=True).stdout.strip()], check=True, capture_output=True)
     else:
@@ -62,7 +63,7 @@ def main():
     finally:
         alt = os.path.join(V, "work", "alt", hashlib.sha1(os.path.realpath(wt).encode()).hexdigest()[:10])
         if lane:
-            subprocess.run(["git", "-C", wt, "checkout", "--", "."], capture_output=True)
+            subprocess.run(["git", "-C", wt, "reset", "-q", "--hard"], capture_output=True)
             subprocess.run(["git", "-C", wt, "clean", "-fdq", "-e", "target"], capture_output=True)
             for x in ("w", "evidence", "replays"):
                 shutil.rmtree(os.path.join(alt, x), ignore_errors=True)
